@@ -22,7 +22,7 @@ func VerifRegistryHistory() {
 	ref := map[string][]string{}
 	var mentioned []string
 	tainted := false // a rejected listing was partially applied (known finding): later state inherits it
-	alphabet := []string{"a", "B", ""} // two names (case differs) and the invalid empty name
+	alphabet := []string{"a", "", "B"}[:gosym.Param("NAMES")] // names (case differs) and the invalid empty name
 	newName := func(tag string) string {
 		n := alphabet[gosym.Choice("name", len(alphabet))]
 		if n != "" {
@@ -31,8 +31,16 @@ func VerifRegistryHistory() {
 		return n
 	}
 	for step := 0; step < L; step++ {
-		e := zzEPs[gosym.Choice("endpoint", E)]
-		switch gosym.Choice("op", 3) {
+		var e string
+		var op int
+		if step == 0 && gosym.Param("S0") >= 0 {
+			// the first step's (endpoint, operation) is fixed by the job so that histories are split
+			// over parallel processes; all values of S0 together cover every first step
+			e, op = zzEPs[gosym.Param("S0")%E], gosym.Param("S0")/E
+		} else {
+			e, op = zzEPs[gosym.Choice("endpoint", E)], gosym.Choice("op", 3)
+		}
+		switch op {
 		case 0: // replace listing
 			k := gosym.Choice("len", 3)
 			var list []*domain.ModelInfo
